@@ -35,13 +35,13 @@ CLAIMS = {
         '6/C04',
     ),
     'C05': (
-        "Lean 4 theorem Pta.C05.layer_verdict: for every well-formed architecture, every layered architecture in the relaxed domain layerDomain' (modules of DIFFERENT layers pairwise unrelated; inside one layer related modules allowed; layers by name list or by regex, mixed; any number of unmentioned layers of either kind), every LayerRule (12 shapes + 2 'any layer' forms, any number of object layers) the model of LayerRule.assert_applies passes exactly when the documented layer semantics hold; layer_verdict_kept, layer_verdict_chain (through the fluent builder), unmentioned_layers_irrelevant', unmentioned_layers_as_no_layer, layerOf_correct, layer_report_sound, overlapping_layers_never_verdict; from a directory tree: Pta.E2E.scan_layer_verdict. Tie to /repo on every run: correspondence run (real code vs compiled Lean model vs Lean specification on generated inputs, exhaustive where stated in the evidence): partitions into 2-4 layers, regex layers in four spellings, re-used LayerRule objects, interpreter-mode probe.",
+        "Lean 4 theorem Pta.C05.layer_verdict: for every well-formed architecture, every layered architecture in the relaxed domain layerDomain' (modules of DIFFERENT layers pairwise unrelated; inside one layer related modules allowed; layers by name list or by regex, mixed; any number of unmentioned layers of either kind), every LayerRule (12 shapes + 2 'any layer' forms, any number of object layers) the model of LayerRule.assert_applies passes exactly when the documented layer semantics hold; layer_verdict_kept, layer_verdict_chain (through the fluent builder), unmentioned_layers_irrelevant', unmentioned_layers_as_no_layer, layerOf_correct, layer_report_sound, overlapping_layers_never_verdict; from a directory tree: Pta.E2E.scan_layer_verdict. Tie to /repo on every run: correspondence run (real code vs compiled Lean model vs Lean specification on generated inputs, exhaustive where stated in the evidence): partitions into 2-4 layers, regex layers in four spellings, re-used LayerRule objects, interpreter-mode probe, layer rules on scanned projects with every import statement shape (judged against the scan specification of the written files).",
         'Layers listing RELATED modules in different layers: no oracle (the library raises LayerMismatch, C15.perm_layers). The regex engine resolving a regex layer is the uninterpreted parameter mt (hypothesis `resolves`). Trusted: Lean kernel, harness/driver.',
         TECH,
         '6/C05',
     ),
     'C06': (
-        "Lean 4 round-trip theorem Pta.C06.roundtrip: for EVERY diagram of the documented subset (any interleaving of declaration lines in the 3 forms with optional 'as alias' on the bracketed forms and arrow lines in all 6 arrow forms with bracketed / bare / alias references; identifiers or dotted names; arbitrary text before @startuml and after @enduml) the model of PumlParser.parse yields exactly the declared or referenced components and exactly the drawn relation; presentation_irrelevant, order_irrelevant (line order, alias vs name references), decl_line_modules, arrow_line_dependency, body_of_text, no_tags / parse_error_iff (no tags -> parsing error), conflicting_alias_rejected. Tie to /repo on every run: correspondence run (real code vs compiled Lean model vs Lean specification on generated inputs, exhaustive where stated in the evidence): diagrams rendered from random relations in every form (keyword-like names, CRLF files, prose outside the tags), one parser object over several files.",
+        "Lean 4 round-trip theorem Pta.C06.roundtrip: for EVERY diagram of the documented subset (any interleaving of declaration lines in the 3 forms with optional 'as alias' on the bracketed forms and arrow lines in all 6 arrow forms with bracketed / bare / alias references; identifiers or dotted names; arbitrary text before @startuml and after @enduml) the model of PumlParser.parse yields exactly the declared or referenced components and exactly the drawn relation; presentation_irrelevant, order_irrelevant (line order, alias vs name references), decl_line_modules, arrow_line_dependency, body_of_text, no_tags / parse_error_iff (no tags -> parsing error), conflicting_alias_rejected. Tie to /repo on every run: correspondence run (real code vs compiled Lean model vs Lean specification on generated inputs, exhaustive where stated in the evidence): diagrams rendered from random relations in every form (keyword-like names, aliases spelled like their component, CRLF files, prose outside the tags), one parser object over several files; component names with non-ASCII identifier letters only as a metamorphic twin stream judged on the Python side (the model's word class is ASCII).",
         "Python's re on the two PlantUML regexes is not modelled: the line recognisers are hand transcriptions whose agreement on documented lines rests on the correspondence run. Outside the subset two boundary theorems state what the model does (bracketed_alias_outside_subset, second_end_tag_extends_body). Trusted: Lean kernel, harness/driver.",
         TECH,
         '6/C06',
